@@ -15,7 +15,10 @@ def c12():
         "model_files": ["Model/ObsBits.v"],
         "theorems": ["C12_unpack_pack", "C12_popcount_paths", "C12_popcount_card",
                      "C12_packed_is_unpacked", "C12_incl_excl", "C12_symmetric",
-                     "C12_centroid_majority", "C12_nonvacuous"],
+                     "C12_centroid_majority", "C12_tanimoto_exact", "C12_tanimoto_empty_union",
+                     "C12_range", "C12_matrix_entry", "C12_matrix_symmetric",
+                     "C12_most_dissimilar", "C12_medoid", "C12_source_tie_centroid",
+                     "C12_nonvacuous"],
         "suites": [suite_bits.suite_bits],
         "search": oracles.search_c12,
         "replay": oracles.replay_c12,
@@ -29,6 +32,64 @@ def c12():
     }
 
 
+def c10():
+    import suite_merges
+    import oracles
+    return {
+        "props_file": "Props/C10.v",
+        "model_files": ["Model/Obs.v", "Model/ObsBits.v"],
+        "theorems": ["C10_source_tie", "C10_ctor_tie", "C10_never", "C10_accept_not_below",
+                     "C10_accept_stat_ge", "C10_threshold_mono",
+                     "C10_tolerance_singleton_diam", "C10_tolerance_singleton_rad",
+                     "C10_tolerance_general_diam", "C10_tolerance_general_rad",
+                     "C10_slack_not_negative", "C10_slack_zero_from_1000",
+                     "C10_slack_mono_tolerance", "C10_slack_nonneg", "C10_legacy",
+                     "C10_exp_hyps_satisfiable", "C10_nonvacuous"],
+        "suites": [suite_merges.suite_merges],
+        "search": oracles.search_c10,
+        "replay": oracles.replay_c10,
+        "level": "proof",
+        "rule": "consistent (old, nominee) count vectors incl. old_n in {1,2,999,1000,1001}, "
+                "thresholds at the achieved statistic +-1 ulp, tolerances {0,0.05,1,10}, all six "
+                "criteria; plus moment-collision stream; each criterion object called twice in "
+                "shuffled order (purity); non-trivial = distinct argument tuples",
+        "trusted": COMMON_TRUST + [
+            "translator /verif/translator/py2coq.py + Gen/NumpySem.v (GenTie.v proves Gen = Model)",
+            "numpy exp: Section hypotheses fexp_unit / fexp_mono_np (maps finite non-positive "
+            "floats into [0,1], monotone there); recorded values used as a table in the suite"],
+        "assumptions": ["libm exp is monotone and maps non-positive finite floats into [0,1]"],
+    }
+
+
+def c11():
+    import suite_isim
+    import oracles
+    return {
+        "props_file": "Props/C11.v",
+        "model_files": ["Model/ObsBits.v"],
+        "theorems": ["C11_source_tie_isim", "C11_source_tie_radius_compl",
+                     "C11_source_tie_radius", "C11_source_tie_diameter", "C11_exact",
+                     "C11_nowrap_partial", "C11_all_empty", "C11_two_is_tanimoto",
+                     "C11_column_order", "C11_row_order", "C11_complementary", "C11_nonvacuous"],
+        "suites": [suite_isim.suite_isim, suite_isim.suite_isim_wrappers],
+        "search": oracles.search_c11,
+        "replay": oracles.replay_c11,
+        "level": "proof",
+        "rule": "count vectors: exhaustive for small n and widths, width boundaries "
+                "(127..257, 65534..65537, 2^32-1..2^33) with saturated columns in every unsigned "
+                "dtype that holds the count, random magnitudes up to and beyond n*sum k = 2^63; "
+                "wrappers on packed/unpacked fingerprint arrays; non-trivial = distinct, sum k > 0",
+        "trusted": COMMON_TRUST + [
+            "translator /verif/translator/py2coq.py + Gen/NumpySem.v (GenTie.v proves Gen = Model)"],
+        "assumptions": ["C11_exact is proved for n*sum k < 2^52 (every intermediate exact); between "
+                        "2^52 and 2^63 the theorem is C11_nowrap_partial (no uint64 wrap) and the "
+                        "value is tied bit-exactly by correspondence, the relative-error bound of "
+                        "DESIGN C11_wide_regime is not proved"],
+    }
+
+
 SPECS = {
+    "C10": c10,
+    "C11": c11,
     "C12": c12,
 }
